@@ -25,8 +25,8 @@ ERR_ADTS = (r"^error::SignatureError$", r"^error::KeyTooLongError$", r"^auth::Si
 KEYDER_FNS = r"^(signing_key::K\w+Key(<M>)?::to_k\w+|<signing_key::K\w+Key(<M>)? as |crypto::hmac_sha256|crypto::sha256)"
 
 
-def level_of_log_call(body, t):
-    od = body.origin_def(t["args"][2])
+def level_of_log_call(body, t, pos=2):
+    od = body.origin_def(t["args"][pos])
     if od and od[0] == "def" and od[1]["kind"] == "assign" and od[1]["stmt"]["rv"]["k"] == "aggregate" and od[1]["stmt"]["rv"].get("adt") == "log::Level":
         return od[1]["stmt"]["rv"]["variant"]
     return None
@@ -71,6 +71,16 @@ def r1(ctx):
                     if lvl != "Trace":
                         viol += 1
                         yield VIOL("C17-R1", "%s/secret-logged-at-%s" % (body.path, lvl), "a log record at level %s is built from key-derived data (only trace is allowed)" % lvl, where=where)
+                    else:
+                        trace_logs += 1
+                    continue
+                if re.search(r"^log::RecordBuilder::<'a>::args$|^log::Log::log$|^log::Record::<'a>::\w+$", c):
+                    # a record built by hand (`log::logger().log(&Record::builder().level(l).args(..).build())`): its level
+                    # is whatever reaches RecordBuilder::level - it must be the constant Trace, not a value chosen at run time
+                    lv = [level_of_log_call(body, t2, 1) for _, t2 in body.calls(r"^log::RecordBuilder::<'a>::level$")]
+                    if not lv or any(x != "Trace" for x in lv):
+                        viol += 1
+                        yield VIOL("C17-R1", "%s/secret-logged-at-%s" % (body.path, "run-time-level" if lv else "default-level"), "a hand-built log record carries key-derived data and its level is %s (only the constant Trace is allowed)" % (sorted({str(x) for x in lv}) if lv else "RecordBuilder's default (Info)"), where=where)
                     else:
                         trace_logs += 1
                     continue
@@ -164,3 +174,89 @@ def r4(ctx):
         yield VIOL("C17-R4", "validate_signature/mismatch-message", "mismatch message is computed from run-time data (%s)" % (nonconst or "parameters"), where=b.span_of_block(errs[0][0]))
     else:
         yield PASS("C17-R4", "validate_signature/mismatch-message", "Err(SignatureDoesNotMatch(Some(<constant>.to_string())))", [site(b, errs[0][0], "Err")])
+
+
+@M.rule("C17-R5", "once the signature has been verified nothing refuses the request: a presented signature known to be correct never travels in an error")
+def r5(ctx):
+    """The presented signature is not secret while it is unverified; after `ct_eq` said equal it *is* the correct signature
+    of this request. From that point on (the equal edge in validate_signature, the success edge of
+    `validate_signature(..).await?` in the entry point) only `Ok` may be reached: a later refusal - e.g. a defensive check
+    whose message renders the authenticator with `{:?}` - puts a correct signature of a refused request in an error."""
+    import c01
+
+    for fn, what in (("auth::SigV4Authenticator::validate_signature", "the equal edge of the comparison"), ("signature::sigv4_validate_request", "the success edge of validate_signature(..).await?")):
+        b = ctx.co(fn)
+        ctx.count()
+        if fn.endswith("validate_signature"):
+            vg, why = c01.verdict_guard(b)
+            start = None
+            if vg:
+                cand = [x for x in b.succ(vg["switch"]) if x == vg["ok_block"] or vg["ok_block"] in b._reachable_from(x)]
+                start = cand[0] if len(cand) == 1 else None
+        else:
+            start = success_edge_of(b, r"SigV4Authenticator::validate_signature$")
+        if start is None:
+            raise AnchorMissing("%s in %s" % (what, fn))
+        reach = b._reachable_from(start)
+        errs = [(eb, s) for eb, i, s in result_aggs(b, "Err") if eb in reach]
+        resid = [(bi, t) for bi, t in b.calls(r"FromResidual::from_residual$") if bi in reach]
+        key = fn.split("::")[-1] + "/no-refusal-after-verification"
+        if errs or resid:
+            w = errs[0][0] if errs else resid[0][0]
+            yield VIOL("C17-R5", key, "an error exit is reachable from %s (%d Err construction(s), %d `?` exit(s)): the request is refused although its signature was found correct, and whatever that error renders may include it" % (what, len(errs), len(resid)), where=b.span_of_block(w))
+        else:
+            yield PASS("C17-R5", key, "from %s only Ok is reachable" % what, [])
+
+
+PRESENTED = r"auth::SigV4Authenticator(Builder)?\b|canonical::AuthParams\b|canonical::CanonicalRequest\b"  # CanonicalRequest's Debug dumps the headers, Authorization included
+
+
+@M.rule("C17-R6", "the presented signature (and any value whose Debug prints it) is rendered at trace level only")
+def r6(ctx):
+    """The signature a client presents is the *correct* one whenever the request is refused for another reason (expired,
+    not yet current, foreign scope) - and a future-dated request becomes acceptable minutes later. The reviewed tree
+    renders it (the `signature` accessor, `{:?}` of the authenticator / its builder / AuthParams) inside trace! only; a
+    debug! line explaining why a request was turned away, or an error message showing the authenticator, publishes it."""
+    n = 0
+    bad = 0
+    for body in ctx.facts.all_bodies():
+        if body.kind not in ("Fn", "AssocFn", "Closure"):
+            continue
+        if re.search(r"as std::fmt::(Debug|Display)>::fmt$", body.path):
+            continue  # the impls themselves: what matters is where they are invoked
+        seeds = set()
+        for bi, t in body.calls(FMT_ARG):
+            tys = " ".join(t.get("arg_tys", [])) + " " + t.get("resolved_full", "")
+            sl = body.slice_op(t["args"][0])
+            if re.search(PRESENTED, tys) or sl.has_call(r"SigV4Authenticator::signature$") or any(fs and fs[-1] == "signature" for _, fs in sl.fieldreads):
+                seeds.add(t["dest"]["local"])
+        if not seeds:
+            continue
+        tainted = forward_taint(body, seed_locals=seeds, int_barrier=False)
+        for kind, bi, det in tainted_uses(body, tainted):
+            if kind != "call":
+                continue
+            t, idx = det
+            c = t.get("callee", "")
+            where = body.span_of_block(bi)
+            if re.search(LOG_CALL, c):
+                n += 1
+                lvl = level_of_log_call(body, t)
+                if lvl != "Trace":
+                    bad += 1
+                    yield VIOL("C17-R6", "%s/presented-signature-logged-at-%s" % (body.path, lvl), "a log record at level %s renders the presented signature (or a value whose Debug prints it): for a request refused by another rule that is a correct signature" % lvl, where=where)
+            elif re.search(r"^log::RecordBuilder::<'a>::args$|^log::Log::log$", c):
+                n += 1
+                lv = [level_of_log_call(body, t2, 1) for _, t2 in body.calls(r"^log::RecordBuilder::<'a>::level$")]
+                if not lv or any(x != "Trace" for x in lv):
+                    bad += 1
+                    yield VIOL("C17-R6", "%s/presented-signature-logged-at-run-time-level" % body.path, "a hand-built log record renders the presented signature and its level is not the constant Trace", where=where)
+            elif re.search(r"^std::fmt::format$|^alloc::fmt::format$|fmt::Write::write_fmt$|io::Write::write_fmt$|^core::panicking::\w+$|^std::rt::\w*panic\w*$", c):
+                n += 1
+                bad += 1
+                yield VIOL("C17-R6", "%s/presented-signature-formatted-by:%s" % (body.path, c.split("::")[-1]), "the presented signature (or a value whose Debug prints it) is rendered into a string / message outside a trace-level log call", where=where)
+    ctx.count(max(1, n))
+    if n < 2:
+        yield MISSING("C17-R6", "presented/floor", "only %d renderings of the presented signature found (2 counted by hand: the authenticator at trace, the mismatch line at trace)" % n)
+    elif not bad:
+        yield PASS("C17-R6", "presented-signature/trace-only", "%d rendering(s) of the presented signature, all inside trace-level log calls" % n, [])
